@@ -6,7 +6,8 @@
 // Limit violations must throw TextException and leave every value unchanged.
 // Symbolic: content bytes over {a,B} (case-split instead of symbolic in c48_case and concrete in c48_big: see there), op arguments.
 // Concrete per path: opcode, which SBuf, lengths (case-split by the solver).
-// -DC48_SHOW_FINDINGS removes the two "KNOWN-FINDING candidate" exclusions below (reproduces them).
+// The spec compiles with -DC48_SHOW_FINDINGS=1, which removes the two exclusions below: both defects (chop()/substr() count wrap,
+// rawAppendStart() beyond maxSize) are repaired in /repo (two "fix: SBuf::..." commits), so those arguments are part of the check.
 #include "squid.h"
 #include "common.h"
 #include "base/CharacterSet.h"
